@@ -135,7 +135,12 @@ def alphabets(tier):
             ((2024, 2, 29, 0, 0, 0, 0), (0, 840, -840)),
             ((2024, 2, 29, 12, 0, 0, 0), (0, 840, -840)),
             ((2024, 2, 29, 12, 0, 0, 500000), (0, 345, -570)),
-            ((9999, 12, 31, 23, 59, 59, 999999), (0, -840, -330))]
+            ((9999, 12, 31, 23, 59, 59, 999999), (0, -840, -330)),
+            # neighbours one microsecond apart, far from 1970 (where a float of POSIX seconds cannot tell them apart)
+            ((9999, 12, 31, 23, 59, 59, 999998), (0, -840)),
+            ((1, 1, 1, 0, 0, 0, 1), (0, 840)),
+            ((2300, 1, 1, 0, 0, 0, 1), (0,)),
+            ((2300, 1, 1, 0, 0, 0, 2), (60,))]
     if th:
         inst += [((1, 1, 1, 0, 0, 0, 1), (0, 840, 1)),
                  ((1900, 3, 1, 0, 0, 0, 0), (0, 840, -840)),
@@ -152,7 +157,7 @@ def alphabets(tier):
     a["duration"] = [["duration", v] for v in du]
     a["null"] = [["null", None]]
     ln = 4 if th else 3
-    a["list"] = _dedup(lists_over([I(1), I(2)], ln) + lists_over([L(), L(I(1))], ln))
+    a["list"] = _dedup(lists_over([I(1), I(2)], ln) + lists_over([L(), L(I(1))], ln) + lists_over([I(1), ["null", None]], 2))
     mv = [I(1), I(2), L(I(1))]
     if th:
         a["map"] = _dedup(maps_over([S("a"), S("b"), S("c")], mv, _rot_orders) + maps_over([I(1), I(2), I(3)], mv, _rot_orders))
